@@ -252,8 +252,17 @@ def check_xof_mask(ctx, rule, P, fn_key, key_param, data_param, hash_name, key_i
     else:
         ok_key = len(fed) == 1 and fed[0][0] == "v" and fed[0][1].op == "param" and fed[0][1].a[1] == key_param
     # hasher type from the Default::default generic args
-    dflt = [s for s in ev.sites.values() if s.callee[0] == "Default::default"]
+    dflt = [s for s in ev.sites.values() if s.callee[0] in ("Default::default", "Digest::new")]
     hty = dflt[0].callee[1][0] if dflt and dflt[0].callee[1] else ""
+    oneshot = [s for s in ev.sites.values() if s.callee[0] == "Digest::digest"]
+    if not upd and len(oneshot) == 1:
+        # `H::digest(data)` is new + update(data) + finalize in one call
+        fed = B.nf(ev, oneshot[0].args[0])
+        hty = oneshot[0].callee[1][0] if oneshot[0].callee[1] else ""
+        if key_is_point:
+            ok_key = len(fed) == 1 and fed[0][0] == "v" and fed[0][1].op == "call" and B.cname(fed[0][1]) == "GroupEncoding::to_bytes" and B.peel(fed[0][1].a[1][0]).op == "param" and B.peel(fed[0][1].a[1][0]).a[1] == key_param
+        else:
+            ok_key = len(fed) == 1 and fed[0][0] == "v" and fed[0][1].op == "param" and fed[0][1].a[1] == key_param
     ok_hash = hash_name in hty
     data_in = ok_xor and any(s.op == "param" and s.a[1] == data_param for s in subterms(x[0].a[1][0])) if x else (bool(ipx) and any(s.op == "param" and s.a[1] == data_param for s in subterms(ipx[0][1])))
     ctx.ob(rule, fn_key, ok_xor and ok_key and ok_hash and data_in, "%s = byte_xor(%s, %s(%s)): hasher=%s fed=%s" % (fn_key, data_param, hash_name, key_param, hty[:60], B.show_nf(fed)), where=where(fn), sample={"fed": B.show_nf(fed), "hasher": hty[:80]})
